@@ -178,10 +178,11 @@ def handle : List String → String
   | ["repo", seed] => if seed.toNat?.isSome then "ok" else "bad-op"
   | ["repo-hist", steps, seed] =>
     -- `N` (the cold store does not need warm-up) only as the first step
-    if seed.toNat?.isSome ∧ (steps.splitOn ",").all (fun s => s.length = 1 ∧ s.toList.all (fun c => "bfFpmkixXIJuwNcyY".toList.contains c))
+    if seed.toNat?.isSome ∧ (steps.splitOn ",").all (fun s => s.length = 1 ∧ s.toList.all (fun c => "bfFpmkixXIJuwNcyYBr".toList.contains c))
         ∧ ¬ ((steps.splitOn ",").drop 1).contains "N" then "ok"
     else "bad-op"
   | ["repo-read-data", seed] => if seed.toNat?.isSome then "ok" else "bad-op"
+  | ["access", seed] => if seed.toNat?.isSome then "ok" else "bad-op"
   | _ => "bad-op"
 
 end Driver.C16
